@@ -16,7 +16,7 @@ import pipeline
 import lower
 import cast
 
-UNITS = ['stream', 'base64', 'auth', 'clientconn', 'httpparse', 'net', 'dynbuf', 'mime', 'cookie', 'headers', 'httpwrite', 'netfmt', 'cookiewrite', 'jariter', 'hdrname', 'idle', 'datefmt', 'putonwire', 'respreset', 'clientwrite', 'transport', 'transportq', 'lifecycle', 'hdrcoll', 'router', 'routerdispatch', 'hdrnum', 'queryadd', 'async', 'netresolve']
+UNITS = ['stream', 'base64', 'auth', 'clientconn', 'httpparse', 'net', 'dynbuf', 'mime', 'cookie', 'headers', 'httpwrite', 'netfmt', 'cookiewrite', 'jariter', 'hdrname', 'idle', 'datefmt', 'putonwire', 'respreset', 'clientwrite', 'transport', 'transportq', 'lifecycle', 'hdrcoll', 'router', 'routerdispatch', 'hdrnum', 'queryadd', 'async', 'netresolve', 'clientqueue']
 
 
 # C02 (what one side serialises the other side parses back) is decided in part by proofs that already serve other properties: the
